@@ -135,6 +135,10 @@ func (labelPatchEngine) Gen(r *rand.Rand, idx int, tier string) any {
 				p.Owner = ""
 			case 2, 3:
 				p.CRH = rsHash(t) // already patched earlier
+			case 4:
+				if !isNew && chance(r, 60) {
+					p.CRH = in.Rev // a stale / hand-written hash on a pod of the OLD ReplicaSet: says nothing about its siblings
+				}
 			}
 		} else {
 			h := "5c8a"
@@ -156,6 +160,14 @@ func (labelPatchEngine) Gen(r *rand.Rand, idx int, tier string) any {
 			}
 			if chance(r, 4) {
 				p.PTH, p.CRH = "", ""
+			}
+			if chance(r, 6) {
+				// an OLD revision whose hash happens to end with the update revision (hashes have no fixed length)
+				if chance(r, 50) {
+					p.PTH, p.CRH = "5"+in.Rev, ""
+				} else {
+					p.PTH, p.CRH = "", "5"+in.Rev
+				}
 			}
 		}
 		switch r.Intn(10) {
